@@ -257,7 +257,7 @@ func TestC09Random(t *testing.T) {
 
 func TestC09Exhaustive(t *testing.T) {
 	col := coll("C09", "exhaustive")
-	maxN := pick(4, 5)
+	maxN := pick(4, 6)
 	extLists := [][]string{nil, {"b"}, {"", "a"}}
 	col.Rule = fmt.Sprintf("all forests <=%d nodes over {a,b,ab} with distinct roots x %d extension lists x routes (output-md, mkdir-root for single roots) x rotating simple/massive", maxN, len(extLists))
 	i, rot := 0, 0
